@@ -193,6 +193,8 @@ def main():
     ops, pairs = F.rule_opcodes()
     texts = F.f_exh(2) + F.consuming_singles(["ADD", "SUB", "AND", "ISZERO", "LT", "SHL"])[::3]
     texts += F.f_mem((2,), deltas=[0])[::3]
+    texts += ["%s %s %s" % (a, op, b) for op in ("SUB", "LT", "DIV", "SHL", "ADD", "AND") for a in ("DUP1", "DUP2", "PUSH 1", "SWAP1")
+              for b in ("DUP1", "DUP2", "SWAP1", "POP")]
     texts += ["PUSH 0 DUP2 ADD PUSH 3 MUL", "DUP2 DUP2 SUB SWAP1 POP", "DUP3 DUP3 MSTORE DUP2 MLOAD", "DUP2 DUP2 SSTORE DUP1 SLOAD",
               "CALLER DUP1 AND", "PUSH 1 PUSH 2 ADD DUP2 MUL", "DUP1 DUP1 MUL DUP1 ADD", "SWAP2 SWAP1 POP"]
     if tier == "thorough":
